@@ -548,6 +548,9 @@ def recursion(P, rep, reach, g=None):
                     need, okx, whyx = text_total_bounded(P, comp)
                     if need:
                         rep.ob("C16.volume|%s|text-total" % "+".join(comp), okx, "cycle %s: %s" % (name, whyx))
+                    need, oke, whye = every_line_costs(P, comp)
+                    if need:
+                        rep.ob("C16.volume|%s|every-line" % "+".join(comp), oke, "cycle %s: %s" % (name, whye))
                     need, okv, whyv = volume_budget(P, comp)
                     if need:
                         rep.ob("C16.volume|%s" % "+".join(comp), okv,
@@ -681,6 +684,89 @@ def text_total_bounded(P, comp):
             if limited:
                 return True, True, "%s counts the bytes of the text of all rounds in a shared counter and checks it against a constant" % k.split("::")[-1]
     return True, False, "a round builds text and nothing counts the text of all rounds: 65536 calls that each hand on a 30000-character name stay under the limits of lines and of line length and need 4 GB"
+
+
+DROPPING = re.compile(r"Iterator>?::(filter|filter_map|skip|skip_while|take|take_while|step_by|flat_map|flatten|map_while)$|::(dedup|retain)$")
+
+
+def _limited_sets(P, near, comp):
+    """the Cell::set calls of a round whose new value is compared with a constant with an error on the failing side:
+    (function, terminator, locals, calls of the value's backward slice)"""
+    out = []
+    for k in near:
+        b = P.body[k]
+        for bb, t, name, tg in P.call_sites(k):
+            if MU.callee_names(t)[1] != "std::cell::Cell::<T>::set":
+                continue
+            locs, consts, calls, places = MU.backward_slice(b, t["args"][1:2])
+            limited = False
+            for bl in b["blocks"]:
+                for st in bl["stmts"]:
+                    if st["k"] == "assign" and st["rv"]["k"] == "bin" and st["rv"]["op"] in ("Gt", "Ge", "Lt", "Le") and ("const" in st["rv"]["l"]) != ("const" in st["rv"]["r"]):
+                        side = st["rv"]["l"] if "const" in st["rv"]["r"] else st["rv"]["r"]
+                        l2, c2, calls2, p2 = MU.backward_slice(b, [side])
+                        if (set(l2) & set(locs)) and bl["term"]["k"] == "switch" and _err_exit_sides(P, k, b, bl, comp if k in comp else [k]):
+                            limited = True
+            if limited:
+                out.append((k, t, locs, calls))
+    return out
+
+
+def every_line_costs(P, comp):
+    """A budget of lines that leaves some lines out (blank ones, comments) and a budget of text that counts a line by its length alone
+    have a hole in common: lines without text cost nothing, yet each is copied and parsed in every round.  Where a round walks a body it
+    looked up, some limited shared counter must grow for EVERY line: (i) by a size taken of the whole collection (len, or a count with no
+    adaptor that drops elements in front of it), or (ii) by the length of each line plus a constant >= 1.   -> (needed, ok, text)"""
+    need, _, _ = volume_budget(P, comp)
+    if not need:
+        return False, True, ""
+    near = _round_helpers(P, comp)
+    holes = []
+    for k, t, locs, calls in _limited_sets(P, near, comp):
+        b = P.body[k]
+        names = [MU.callee_names(c)[1] for c in calls]
+        # (i) a size of the whole collection
+        if any(re.search(r"(Vec::<T, A>|\[T\]>)::len$", n) for n in names):
+            return True, True, "%s counts every element of what a round walks (len of the collection)" % k.split("::")[-1]
+        if any(re.search(r"Iterator>?::count$", n) for n in names) and not any(DROPPING.search(n) for n in names):
+            return True, True, "%s counts every element of what a round walks (count without a dropping adaptor)" % k.split("::")[-1]
+        if any(n.endswith(("::map_or", "::map", "::map_or_else", "::and_then")) for n in names):
+            for k2 in P.body:
+                if not k2.startswith(k + "::{closure"):
+                    continue
+                n2 = [MU.callee_names(t2)[1] for _, t2, _, _ in P.call_sites(k2)]
+                sizes = [n for n in n2 if re.search(r"(Vec::<T, A>|\[T\]>)::len$|Iterator>?::count$", n)]
+                if sizes and not any(DROPPING.search(n) for n in n2):
+                    return True, True, "%s counts every element of what a round walks (size taken in %s)" % (k.split("::")[-1], k2.split("::")[-1])
+                if sizes:
+                    holes.append("%s counts only the elements an adaptor lets through" % k.split("::")[-1])
+        # (ii) the length of each line plus a constant
+        is_text_len = lambda n: bool(re.search(r"(String|str>)::len$", n))
+        by_len = any(is_text_len(n) for n in names)
+        for pl in [l for l in locs if 1 <= l <= b["arg_count"] and P.tys(k, b["locals"][l]["ty"]) == "usize"]:
+            sites = [(k2, t2) for k2 in near for _, t2, _, tg2 in P.call_sites(k2) if k in tg2]
+            if sites and all(any(is_text_len(MU.callee_names(c)[1]) for c in MU.backward_slice(P.body[k2], [t2["args"][pl - 1]])[2]) for k2, t2 in sites):
+                by_len = True
+        if not by_len:
+            continue
+        plus = False
+        for c in calls:
+            if re.search(r"::(saturating_add|checked_add|wrapping_add)$", MU.callee_names(c)[1]):
+                for a in c["args"]:
+                    v = a.get("const", {}).get("int") if "const" in a else None
+                    if v is not None and int(v, 0) >= 1:
+                        plus = True
+        for bl in b["blocks"]:
+            for st in bl["stmts"]:
+                if st["k"] == "assign" and st["rv"]["k"] in ("bin", "binchk") and st["rv"].get("op") in ("Add", "AddWithOverflow") and st["place"]["local"] in locs:
+                    for side in (st["rv"]["l"], st["rv"]["r"]):
+                        v = side.get("const", {}).get("int") if "const" in side else None
+                        if v is not None and int(v, 0) >= 1:
+                            plus = True
+        if plus:
+            return True, True, "%s counts every line by its length plus a constant" % k.split("::")[-1]
+        holes.append("%s counts a line by its length alone" % k.split("::")[-1])
+    return True, False, "no limited counter grows for every line of a body: %s — a body of 30000 blank lines called 65536 times costs nothing in any budget and is copied and parsed 2 * 10^9 times" % ("; ".join(dict.fromkeys(holes)) or "none counts lines at all")
 
 
 def _has_cycle_without(P, comp, k):
@@ -1696,6 +1782,41 @@ def skip_consumes(P):
 
 
 # ------------------------------------------------------------------------------------------------ 4. allocation
+def _pass2_pads_only_nonempty(P):
+    """every resize (padding) in build_pass_2 is reachable only over the `false` side of an is_empty() test of the fragment pass_2_internal
+    returned: a segment that emits nothing is not padded for"""
+    k = "builder::pass2::build_pass_2"
+    if k not in P.body:
+        return False
+    b = P.body[k]
+    resizes = [bb for bb, t, name, tg in P.call_sites(k) if re.search(r"Vec::<T, A>::(resize|resize_with)$", MU.callee_names(t)[1])]
+    if not resizes:
+        return True
+    cut = set()
+    for bb, t, name, tg in P.call_sites(k):
+        if not re.search(r"Vec::<T, A>::is_empty$", MU.callee_names(t)[1]):
+            continue
+        locs, consts, calls, places = MU.backward_slice(b, t["args"][:1])
+        if not any("pass_2_internal" in MU.callee_names(c)[0] for c in calls):
+            continue
+        nb = b["blocks"][t["target"]]
+        if nb["term"]["k"] == "switch":
+            for v, tb in nb["term"]["targets"]:
+                if int(v) == 0:
+                    cut.add((t["target"], tb))
+    if not cut:
+        return False
+    seen, todo = {0}, [0]
+    while todo:
+        x = todo.pop()
+        for y in G.succs(b, x):
+            if (x, y) in cut or y in seen:
+                continue
+            seen.add(y)
+            todo.append(y)
+    return not any(r in seen for r in resizes)
+
+
 def allocation(P, rep):
     """amounts that come from user-written numbers (segment addresses, .byte sizes) are turned into memory only in pass 2, and pass 1
     ends with the three capacity comparisons on its success path"""
@@ -1710,6 +1831,7 @@ def allocation(P, rep):
     segv = {int(v["discr"]): v["name"] for v in P.lib.adts["parser::SegmentType"]["variants"]}
     need = {"Code": "flash_size", "Eeprom": "eeprom_size", "Data": "ram_size"}
     found = {}
+    pads_only_what_places = _pass2_pads_only_nonempty(P)
     for p in oks:
         t = None
         for s_, dd in p.state.doms.items():
@@ -1727,6 +1849,11 @@ def allocation(P, rep):
                 lhs_is_usage = "pass_1_internal(" in sx.show(e[2])
                 if (lhs_is_usage and op in ("Le", "Lt")) or (not lhs_is_usage and op in ("Ge", "Gt")):
                     ok = True
+            # a segment that placed nothing (its end is not above its start) is not compared: pass 2 must then pad for nothing that
+            # emits nothing
+            m = re.match(r"^\((pass_1_internal\(.*\)@\d+):Ok\.0\.0 > (pass_1_internal\(.*\)@\d+):Ok\.0\.1\)$", sh)
+            if m and m.group(1) == m.group(2) and not truth and pads_only_what_places:
+                ok = True
         found[t] = found.get(t, True) and ok
     for t, cap in need.items():
         rep.ob("C16.alloc|capacity-before-emission|%s" % t, found.get(t) is True,
